@@ -5,6 +5,7 @@ import (
 	"fmt"
 	"os"
 	"os/exec"
+	"strings"
 	"syscall"
 	"time"
 	"unsafe"
@@ -15,6 +16,9 @@ import (
 // into the master side followed by the end-of-file character (canonical mode, echo off: each read of the
 // program returns one line). failAt > 0: the failAt-th and all later reads of the terminal fail with EIO
 // (strace fault injection on that path): the terminal went away. ok=false: the scenario could not be set up.
+// With failAt > 0 the result's Err field carries "injected" when strace reports that it did inject the error at least
+// once (its counter is per thread, and the Go runtime may spread the reads over several threads: a large failAt
+// may never be reached).
 func ExecTerminalInput(hr string, mkArgs func(slave string) []string, content string, o ExecOpts, failAt int) (res Result, ok bool) {
 	m, err := os.OpenFile("/dev/ptmx", os.O_RDWR|syscall.O_NOCTTY, 0)
 	if err != nil {
@@ -46,8 +50,14 @@ func ExecTerminalInput(hr string, mkArgs func(slave string) []string, content st
 		return res, false
 	}
 	argv := append([]string{hr}, mkArgs(slave)...)
+	straceLog := ""
 	if failAt > 0 {
-		argv = append([]string{"strace", "-f", "-o", "/dev/null", "-P", slave, "-e", "trace=read", "-e", fmt.Sprintf("inject=read:error=EIO:when=%d+", failAt)}, argv...)
+		if f, err := os.CreateTemp("", "verif-strace-*"); err == nil {
+			straceLog = f.Name()
+			f.Close()
+			defer os.Remove(straceLog)
+		}
+		argv = append([]string{"strace", "-f", "-o", straceLog, "-P", slave, "-e", "trace=read", "-e", fmt.Sprintf("inject=read:error=EIO:when=%d+", failAt)}, argv...)
 	}
 	cmd := exec.Command(argv[0], argv[1:]...)
 	cmd.Dir = o.Dir
@@ -79,6 +89,11 @@ func ExecTerminalInput(hr string, mkArgs func(slave string) []string, content st
 		res.TimedOut = true
 	}
 	res.Out, res.Serr, res.Count = so.String(), se.String(), 1
+	if straceLog != "" {
+		if b, err := os.ReadFile(straceLog); err == nil && strings.Contains(string(b), "(INJECTED)") {
+			res.Err = "injected"
+		}
+	}
 	if werr != nil {
 		var ee *exec.ExitError
 		if errors.As(werr, &ee) {
